@@ -123,6 +123,7 @@ type hist struct {
 	done   atomic.Int64     // tasks whose Execute call exited
 	onExec func(b []*tk)    // schedule shaping inside Execute: may block, may panic
 	onRem  func(via string) // scenario signal from inside RemoveAll (non-empty batches and wait-flushes)
+	stuck  []string         // parked API calls found by deadlocked()
 }
 
 func (h *hist) actor() *actor {
@@ -491,57 +492,106 @@ func quiesce(id string, base int, jump time.Duration) bool {
 	}, watchdog)
 }
 
-// stuckCalls looks for goroutines of the case that are parked inside an API
-// call (Add/Wait/Flush) with an identical stack in three dumps taken generously
-// apart while NO background flusher goroutine exists. Only then nothing can
-// ever complete that call: that is decided by state, not by elapsed time.
-func stuckCalls(id string) (calls []string, flusherAlive bool) {
-	var prev map[string]bool
+// deadlocked decides by STATE, not by elapsed time, that an API call of the case
+// can never complete: in three dumps taken a second apart (1) the same goroutines
+// are parked inside Add/Wait/Flush with identical stacks, (2) the set of all
+// stacks of the case is identical, (3) no background flusher goroutine exists,
+// (4) no Execute callback is in progress (so the harness holds nothing back).
+// Returns the parked calls, or nil.
+func deadlocked(id string, h *hist) []string {
+	var first map[string]bool
+	fingerprint := ""
 	for d := 0; d < 3; d++ {
+		if d > 0 {
+			time.Sleep(time.Second)
+		}
+		h.mu.Lock()
+		running := 0
+		for _, x := range h.execs {
+			if x.Exit == 0 {
+				running++
+			}
+		}
+		h.mu.Unlock()
+		if running > 0 {
+			return nil
+		}
 		cur := map[string]bool{}
+		var all []string
 		for _, g := range labelled(id) {
 			if strings.Contains(g.stack, "backgroundFlush") {
-				flusherAlive = true
+				return nil
 			}
+			if !strings.Contains(g.stack, "/go-zero/core/") {
+				continue // harness-only goroutine (controller, completion waiters)
+			}
+			all = append(all, strconv.Itoa(g.n)+"x"+g.stack)
 			for _, api := range []string{"Add", "Wait", "Flush"} {
-				if strings.Contains(g.stack, "(*PeriodicalExecutor)."+api+"\n") && !strings.Contains(g.stack, "backgroundFlush") {
+				if strings.Contains(g.stack, "(*PeriodicalExecutor)."+api+"\n") {
 					cur[api+"\n"+g.stack] = true
 				}
 			}
 		}
-		if prev != nil {
-			for k := range prev {
-				if !cur[k] {
-					delete(prev, k)
-				}
-			}
-		} else {
-			prev = cur
+		sort.Strings(all)
+		fp := strings.Join(all, "|")
+		if len(cur) == 0 {
+			return nil
 		}
-		if d < 2 {
-			time.Sleep(300 * time.Millisecond)
+		if d == 0 {
+			first, fingerprint = cur, fp
+			continue
+		}
+		if fp != fingerprint || len(cur) != len(first) {
+			return nil
+		}
+		for k := range cur {
+			if !first[k] {
+				return nil
+			}
 		}
 	}
-	for k := range prev {
+	var calls []string
+	for k := range first {
 		calls = append(calls, k)
 	}
 	sort.Strings(calls)
-	return calls, flusherAlive
+	return calls
 }
 
-// reportBlocked is called when a watchdog fired for an API call. With every
-// harness-owned hold released, a call parked with a stable stack and no flusher
-// alive is a violation; anything else is inconclusive.
+// awaitAPI waits for API calls running in other goroutines. Elapsed time alone
+// never yields a verdict: the wait ends early only when deadlocked() proves that
+// the call cannot complete; the watchdog firing is merely inconclusive.
+func awaitAPI(id string, h *hist, ch <-chan struct{}) bool {
+	if waitChan(ch, 3*time.Second) {
+		return true
+	}
+	deadline := time.Now().Add(watchdog)
+	for time.Now().Before(deadline) {
+		if calls := deadlocked(id, h); len(calls) > 0 {
+			h.stuck = calls
+			return false
+		}
+		if waitChan(ch, 2*time.Second) {
+			return true
+		}
+	}
+	return false
+}
+
+// reportBlocked is called when awaitAPI gave up.
 func reportBlocked(c *kit.Case, h *hist, desc map[string]any, what string) {
-	calls, alive := stuckCalls(c.ID)
-	if len(calls) > 0 && !alive {
+	if len(h.stuck) == 0 {
+		h.stuck = deadlocked(c.ID, h)
+	}
+	if calls := h.stuck; len(calls) > 0 {
 		api := calls[0][:strings.Index(calls[0], "\n")]
 		c.Viol("C11/stuck/"+api+"/no-flusher-alive",
-			api+" is parked forever: no background flusher goroutine exists that could complete it ("+what+")",
+			api+" can never return: it is parked with a stable stack, no background flusher goroutine exists and no callback is running ("+what+")",
 			witness(h, desc, map[string]any{"parked": calls}))
+		c.Obs("stuck_calls_detected", 1)
 		return
 	}
-	c.Inconclusive("watchdog: " + what + fmt.Sprintf(" (parked api calls: %d, flusher alive: %v)", len(calls), alive))
+	c.Inconclusive("watchdog: " + what)
 }
 
 // ---------------------------------------------------------------- oracle
@@ -826,18 +876,23 @@ func async(fn func()) <-chan struct{} {
 	return ch
 }
 
+// guardedAdd runs one Add on behalf of the sequential client `a` under the watchdog.
+func guardedAdd(c *kit.Case, h *hist, a *actor, tg target, t *tk) bool {
+	return awaitAPI(c.ID, h, async(func() { doAdd(a, tg, t) }))
+}
+
 // finish ends a history: optional final Wait, quiescence, oracle.
 func finish(c *kit.Case, h *hist, tg target, desc map[string]any, base int, finalWait bool, jump time.Duration, forceNontrivial bool) {
 	main := h.actor()
 	if finalWait && tg.HasWait() {
 		done := async(func() { doWait(main, tg) })
-		if !waitChan(done, watchdog) {
+		if !awaitAPI(c.ID, h, done) {
 			reportBlocked(c, h, desc, "final Wait did not return")
 			return
 		}
 	} else if !tg.HasWait() {
 		done := async(func() { doFlush(main, tg) })
-		if !waitChan(done, watchdog) {
+		if !awaitAPI(c.ID, h, done) {
 			reportBlocked(c, h, desc, "final Flush did not return")
 			return
 		}
@@ -1004,7 +1059,7 @@ func runRandom(c *kit.Case, kind string) {
 			}
 		}()
 	}
-	ok := waitChan(async(wg.Wait), watchdog)
+	ok := awaitAPI(c.ID, h, async(wg.Wait))
 	close(sh.stop)
 	<-ctl
 	c.Obs("idle_jumps_injected", nJumps.Load())
@@ -1090,7 +1145,10 @@ func runHandoff(c *kit.Case) {
 			fail("no batch ever reached the threshold")
 			return
 		}
-		doAdd(main, tg, newTask())
+		if !guardedAdd(c, h, main, tg, newTask()) {
+			fail("Add did not return")
+			return
+		}
 	}
 	if held && !waitChan(entered0, watchdog) {
 		fail("Execute of the first batch was never entered")
@@ -1099,7 +1157,10 @@ func runHandoff(c *kit.Case) {
 	// the container is empty and (held) the flusher cannot flush: thr-1 tasks whose Add
 	// returns, then the Add that reaches the threshold
 	for i := 0; i < thr-1; i++ {
-		doAdd(main, tg, newTask())
+		if !guardedAdd(c, h, main, tg, newTask()) {
+			fail("Add (below the threshold) did not return")
+			return
+		}
 	}
 	last := newTask()
 	g := h.actor()
@@ -1137,12 +1198,12 @@ func runHandoff(c *kit.Case) {
 		close(release0)
 	}
 	for _, w := range waiters {
-		if !waitChan(w, watchdog) {
+		if !awaitAPI(c.ID, h, w) {
 			fail("Wait did not return")
 			return
 		}
 	}
-	if !waitChan(gDone, watchdog) {
+	if !awaitAPI(c.ID, h, gDone) {
 		fail("the Add that reached the threshold did not return")
 		return
 	}
@@ -1186,7 +1247,10 @@ func runQuitRace(c *kit.Case) {
 	counting := func() { reads.Add(1) }
 	clockHook.Store(&counting)
 	defer clockHook.Store(nil)
-	doAdd(main, tg, newTask())
+	if !guardedAdd(c, h, main, tg, newTask()) {
+		reportBlocked(c, h, desc, "first Add did not return")
+		return
+	}
 	if !waitUntil(func() bool { return h.done.Load() >= 1 }, watchdog) {
 		if len(labelled(c.ID)) == 0 {
 			finish(c, h, tg, desc, base, false, idleJump, true) // reports the stranded task
@@ -1244,12 +1308,20 @@ func runQuitRace(c *kit.Case) {
 	switch variant {
 	case "below":
 		for i := 0; i < nBelow; i++ {
-			doAdd(main, tg, newTask())
+			if !guardedAdd(c, h, main, tg, newTask()) {
+				unhook()
+				reportBlocked(c, h, desc, "Add below the threshold did not return")
+				return
+			}
 			want++
 		}
 	default:
 		for i := 0; i < thr-1; i++ {
-			doAdd(main, tg, newTask())
+			if !guardedAdd(c, h, main, tg, newTask()) {
+				unhook()
+				reportBlocked(c, h, desc, "Add below the threshold did not return")
+				return
+			}
 			want++
 		}
 		g := h.actor()
@@ -1267,31 +1339,18 @@ func runQuitRace(c *kit.Case) {
 	unhook()
 
 	if variant == "threshold" {
-		// either the Add returns (the flusher stayed and confirmed) or the flusher is gone with the Add parked
-		okAdd := waitUntil(func() bool {
-			select {
-			case <-gDone:
-				return true
-			default:
-			}
-			return false
-		}, 3*time.Second)
-		if !okAdd {
-			calls, alive := stuckCalls(c.ID)
-			if len(calls) > 0 && !alive {
-				c.Viol("C11/stuck/Add/no-flusher-alive",
-					"the flusher quit while a batch handed over by Add was in flight: Add is parked on the confirmation and no flusher exists",
-					witness(h, desc, map[string]any{"parked": calls}))
+		// either the Add returns (the flusher stayed and confirmed it), or the flusher is
+		// gone and the Add is parked on a confirmation nobody can send
+		if !awaitAPI(c.ID, h, gDone) {
+			reportBlocked(c, h, desc, "the flusher was deciding to quit while an Add handed a batch over; that Add did not return")
+			if len(h.stuck) > 0 {
 				// rescue: another Add restarts a flusher, which picks the batch up
-				doAdd(main, tg, newTask())
-				waitChan(gDone, watchdog)
-				finish(c, h, tg, desc, base, true, idleJump, true)
-				return
+				if guardedAdd(c, h, main, tg, newTask()) && waitChan(gDone, watchdog) {
+					h.stuck = nil
+					finish(c, h, tg, desc, base, true, idleJump, true)
+				}
 			}
-			if !waitChan(gDone, watchdog) {
-				reportBlocked(c, h, desc, "the Add that reached the threshold did not return")
-				return
-			}
+			return
 		}
 		c.Obs("quit_refused_while_batch_in_flight", 1)
 	}
@@ -1318,7 +1377,11 @@ func runIdleRestart(c *kit.Case) {
 	for cy := 0; cy < cycles; cy++ {
 		n := r.Range(1, thr+2)
 		for i := 0; i < n; i++ {
-			doAdd(main, tg, &tk{id: id})
+			if !guardedAdd(c, h, main, tg, &tk{id: id}) {
+				desc["plan"] = plan
+				reportBlocked(c, h, desc, "Add did not return")
+				return
+			}
 			id++
 		}
 		mode := r.Pick(5, 3, 2)
@@ -1384,7 +1447,7 @@ func runSQL(c *kit.Case) {
 			}
 		}()
 	}
-	if !waitChan(async(wg.Wait), watchdog) {
+	if !awaitAPI(c.ID, h, async(wg.Wait)) {
 		reportBlocked(c, h, desc, "inserters did not finish")
 		return
 	}
